@@ -58,6 +58,9 @@ def cases(rng, tier):
     remote = [n for n in names if not n.startswith("sandvine")]
     for n in rng.sample(remote, 4):
         yield {"name": n, "unpack": False, "doc": n, "envseq": True}
+    # after the module that holds the loader machinery was reloaded (autoreload in a notebook), bundled and remote
+    for n in rng.sample(names, 6):
+        yield {"name": n, "unpack": False, "doc": n, "after_reload": True}
     # a data home on another file system than the system temporary directory (a RAM disk, a network share)
     for n in rng.sample(remote, 6):
         yield {"name": n, "unpack": rng.random() < 0.5, "doc": n, "home_fs": "other"}
@@ -79,6 +82,10 @@ def fake_payload(url):
 def run_impl(c):
     import traffic_weaver.datasets._base as base
     from traffic_weaver.datasets import load_dataset
+    if c.get("after_reload"):
+        # an interactive session / a notebook with autoreload re-executes the module the loaders live in
+        import importlib
+        importlib.reload(base)
     t = tables()
     by_url = {r["url"]: r for r in t["remotes"]}
     home = scratch_dir("twv-c18-", other_fs=c.get("home_fs") == "other")
